@@ -349,14 +349,25 @@ def asm_table(facts):
             # constant address, the offset does not leave it).  true => memory == Zeropage
             uni = w.facts.enum_variants("VariableMemory")
             outs = []
+            # the predicate is a function of its arguments: a second call on the same path gives the same answer
+            akey = args[0].key + "|" + expr_text(node["args"][1]) if len(node.get("args", [])) > 1 else args[0].key
+            seen = st.notes.get("zp_calls", {})
+            if akey in seen:
+                return Const(seen[akey])
+            def remember(s_, val):
+                d = dict(s_.notes.get("zp_calls", {}))
+                d[akey] = val
+                s_.notes["zp_calls"] = d
             s1 = st.restrict(args[0].key + ".memory", allowed=["Zeropage"], universe=uni)
             if s1 is not None:
                 if s1 is st:
                     s1 = st.copy()
                 s1.notes["zp_pred"] = True
+                remember(s1, True)
                 outs.append(Outcome("val", s1, Const(True)))
             s2 = st.copy()
             s2.notes["zp_pred"] = False
+            remember(s2, False)
             outs.append(Outcome("val", s2, Const(False)))
             return outs
         if node.get("k") == "mcall" and name == "asm" and node["recv"].get("k") == "path" and node["recv"]["segs"] == ["self"]:
